@@ -66,7 +66,10 @@ class StreamOf:
 
 
 KINDS = ["call", "attribute", "batch", "stream"]
-EXC_CLASSES = [ValueError, AttributeError, KeyError, LookupError, TypeError]
+# builtin classes incl. the ones the daemon's own gates raise, the OSError / ConnectionError family (which the transport
+# layers also use for their own failures), and Pyro errors incl. the communication-error family
+EXC_CLASSES = [ValueError, AttributeError, KeyError, LookupError, TypeError, OSError, PermissionError, ConnectionResetError,
+               BrokenPipeError, errors.NamingError, errors.TimeoutError, errors.ConnectionClosedError, errors.SecurityError]
 MODES = ["serialisable", "unserialisable-attribute", "unserialisable-arg"]
 
 
@@ -123,6 +126,16 @@ def h_error_path(S, B):
     again = None
     try:
         again = p._pyroInvoke("ok", (), {})
+    except errors.CommunicationError as x:
+        again = x
+        if Target.mode == "serialisable" and Target.exc_class is errors.SecurityError:
+            # the daemon deliberately ends a connection on which a SecurityError occurred (after reporting it): the next
+            # call finds the connection gone, the one after it is served on a new connection
+            S.cover("security-error-ends-the-connection")
+            try:
+                again = p._pyroInvoke("ok", (), {})
+            except Exception as x2:
+                again = x2
     except Exception as x:
         again = x
     S.check("proxy-usable-for-the-next-call", again == "fine")
